@@ -306,14 +306,24 @@ impl ChessBoard {
 
         // validate en passant
         if let Some(square) = self.get_en_passant() {
-            if (self.get_piece_type_mask(Pawn)
-                & self.get_color_mask(!self.side_to_move)
-                & BitBoard::from_square(match !self.side_to_move {
-                    White => square.up().unwrap(),
-                    Black => square.down().unwrap(),
-                }))
-            .is_blank()
-            {
+            // the square lies on the sixth rank when White is to move (third for Black), is empty,
+            // has the just-moved enemy pawn in front of it and the empty origin square behind it
+            let (ep_rank, pawn_square, origin_square) = match self.side_to_move {
+                White => (Rank::Sixth, square.down(), square.up()),
+                Black => (Rank::Third, square.up(), square.down()),
+            };
+            let enemy_pawns =
+                self.get_piece_type_mask(Pawn) & self.get_color_mask(!self.side_to_move);
+            let is_consistent = (square.get_rank() == ep_rank)
+                && self.is_empty_square(square)
+                && match (pawn_square, origin_square) {
+                    (Ok(pawn), Ok(origin)) => {
+                        !(enemy_pawns & BitBoard::from_square(pawn)).is_blank()
+                            && self.is_empty_square(origin)
+                    }
+                    _ => false,
+                };
+            if !is_consistent {
                 return Some(Error::InvalidBoardInconsistentEnPassant);
             }
         }
